@@ -257,6 +257,20 @@ pub mod eio {
     use super::Flavor;
     use crate::{Error, Result};
 
+    /// Write the whole buffer, reporting a writer that accepts nothing as full.
+    ///
+    /// `embedded-io`'s provided `write_all` panics on a zero-length write, which the
+    /// `&mut [u8]` writer of `embedded-io` 0.4 reports once it is full.
+    fn write_all<T: crate::eio::Write>(writer: &mut T, mut buf: &[u8]) -> Result<()> {
+        while !buf.is_empty() {
+            match writer.write(buf) {
+                Ok(0) | Err(_) => return Err(Error::SerializeBufferFull),
+                Ok(n) => buf = &buf[n..],
+            }
+        }
+        Ok(())
+    }
+
     /// Wrapper over a [`embedded_io Write`](crate::eio::Write) that implements the flavor trait
     pub struct WriteFlavor<T> {
         writer: T,
@@ -280,18 +294,12 @@ pub mod eio {
 
         #[inline(always)]
         fn try_push(&mut self, data: u8) -> Result<()> {
-            self.writer
-                .write_all(&[data])
-                .map_err(|_| Error::SerializeBufferFull)?;
-            Ok(())
+            write_all(&mut self.writer, &[data])
         }
 
         #[inline(always)]
         fn try_extend(&mut self, b: &[u8]) -> Result<()> {
-            self.writer
-                .write_all(b)
-                .map_err(|_| Error::SerializeBufferFull)?;
-            Ok(())
+            write_all(&mut self.writer, b)
         }
 
         fn finalize(mut self) -> Result<Self::Output> {
